@@ -150,7 +150,7 @@ func runCursorProperty(judge func(CursorCase, *CursorObs, *Trace, *bs.BloomSearc
 }
 
 func TestC20(t *testing.T) {
-	Ev.Rule = "case = dataset (1-6 files x 1-6 blocks x 1/10/63/70/200 rows: several 64-row batches per block in the larger ones), MaxQueryConcurrency 1..1000, query kind (match-all / token / one file / one block / nothing), engine never started / started / stopped, optional read latency, 0-3 store failures (OpenFile / Read / Seek / iterator start / iterator yield at generated positions, each with its own sentinel), optional ctx-honouring gate inside the MetaStore iteration, and a consumer script (drain; Next xk then Close or cancel; Close or cancel from another goroutine after 0-10 ms; stall; Close before the first row). Oracle: Next returns false (20 s harness limit, 5 s after Close/cancel) and stays false; every Close returns nil, three concurrent late Closes do not change Err; clean runs: Err nil iff no failure fired, else mentions every fired sentinel and wraps the store error; cancel finished before the final Next began (no Close) => errors.Is(Err, context.Canceled); deliberate Close => never the ctx error; racing cases accept nil / recorded failures / ctx error. Non-trivial: termination landed mid-stream (0 < rows < total) or a failure fired; distinct by case."
+	Ev.Rule = "case = dataset (1-6 files x 1-6 blocks x 1/10/63/70/200 rows: several 64-row batches per block in the larger ones), MaxQueryConcurrency 1..1000, query kind (match-all / token / one file / one block / nothing), engine never started / started / stopped, optional read latency, 0-3 store failures (OpenFile / Read / Seek / iterator start / iterator yield at generated positions, each with its own sentinel), optional ctx-honouring gate inside the MetaStore iteration, and a consumer script (drain; Next xk then Close or cancel; Close or cancel from another goroutine after 0-10 ms; stall; Close before the first row; 2-4 goroutines calling Close at the same moment mid-stream with 0.5-5 ms read latency). Oracle: Next returns false (20 s harness limit, 5 s after Close/cancel) and stays false; every Close returns nil, three concurrent late Closes do not change Err; clean runs: Err nil iff no failure fired, else mentions every fired sentinel and wraps the store error; cancel finished before the final Next began (no Close) => errors.Is(Err, context.Canceled); deliberate Close => never the ctx error; racing cases accept nil / recorded failures / ctx error. Non-trivial: termination landed mid-stream (0 < rows < total) or a failure fired; distinct by case."
 	Ev.Assumptions = []string{"failures that fire after the query was terminated may be dropped (documented as teardown noise)"}
 	runChecks(t, "scripts", 400, 10000, genCursorCase(true), runCursorProperty(func(c CursorCase, o *CursorObs, _ *Trace, _ *bs.BloomSearchEngine) (*Violation, bool) {
 		return judgeC20(c, o)
@@ -169,6 +169,16 @@ func judgeC21(c CursorCase, o *CursorObs, tr *Trace, eng *bs.BloomSearchEngine) 
 	for _, h := range o.HandlesAtFalse {
 		if h.Closes == 0 {
 			return violf("when Next returned false, read handle #%d on %s (opened by this query) had not been closed", h.ID, h.Ptr), false
+		}
+	}
+	for _, sn := range o.CloseSnaps {
+		if sn.IterOpen != 0 {
+			return violf("when %s returned the MetaStore iterator had not returned (%d open)", sn.Who, sn.IterOpen), false
+		}
+		for _, h := range sn.Handles {
+			if h.Closes == 0 {
+				return violf("when %s returned, read handle #%d on %s (opened by this query) had not been closed (%d store reads still in progress)", sn.Who, h.ID, h.Ptr, sn.Reads), false
+			}
 		}
 	}
 	for _, h := range o.Handles {
@@ -247,7 +257,7 @@ func judgeC21(c CursorCase, o *CursorObs, tr *Trace, eng *bs.BloomSearchEngine) 
 }
 
 func TestC21(t *testing.T) {
-	Ev.Rule = "same generated cursor scripts as C20 (datasets up to 36 blocks, early Close/cancel, read/open/iterator failures, gated iteration, slow consumers). Oracle from the harness's handle-accounting store wrapper: when Next returns false every handle the query opened has been closed, finally every handle closed exactly once, never used after close, never used by two goroutines at once; the MetaStore iterator has returned; goroutines with bloomsearch query frames (stack inspection) are gone within a 2 s settle window; then a follow-up match-all query with a read barrier must reach MaxQueryConcurrency simultaneous reads (when the dataset has that many blocks). Non-trivial: early termination mid-stream or a failure fired; distinct by case."
+	Ev.Rule = "same generated cursor scripts as C20 (datasets up to 36 blocks, early Close/cancel, read/open/iterator failures, gated iteration, slow consumers). Oracle from the harness's handle-accounting store wrapper: when Next returns false, and at the moment EACH individual Close call returns (sequential, asynchronous, or one of several concurrent ones), every handle the query opened has been closed and the iterator has returned; finally every handle closed exactly once, never used after close, never used by two goroutines at once; the MetaStore iterator has returned; goroutines with bloomsearch query frames (stack inspection) are gone within a 2 s settle window; then a follow-up match-all query with a read barrier must reach MaxQueryConcurrency simultaneous reads (when the dataset has that many blocks). Non-trivial: early termination mid-stream or a failure fired; distinct by case."
 	Ev.Assumptions = []string{"'used by two goroutines at once' is detected when the overlap actually happens in a run", "goroutines are attributed to queries by their stack frames"}
 	runChecks(t, "scripts", 400, 10000, genCursorCase(true), runCursorProperty(judgeC21))
 }
